@@ -186,16 +186,20 @@ def c01_cases(tier, seed):
         nsfiles = {ns: {l: tree(l, ns) for l in locales} for ns in ("common", "home")}
         cases.append(Case(Project(default, locales, nsfiles, namespaces=["common", "home"], style=STYLES[(j + 1) % len(STYLES)]),
                           "c01_namespaces/%d" % j, roles={"*": "namespaces"}))
+    # > 26 pieces in one value (tuple chunking: 27, 28, 53, 60 pieces) and > 16 locales (nested EitherOf)
+    def pieces(n, marker):
+        nm = Namer(marker, rng)
+        out = []
+        for q in range(n):
+            out.append(nm.text() if q % 2 == 0 else V("v%d" % (q % 5)))
+        return out
+    files = {"en": {"p27": S(*pieces(27, "en.p27")), "p28": S(*pieces(28, "en.p28")), "p53": S(*pieces(53, "en.p53")), "p60": S(*pieces(60, "en.p60")),
+                    "p26": S(*pieces(26, "en.p26"))}}
+    cases.append(Case(Project("en", ["en"], files), "c01_large/pieces", roles={"*": "more_than_26_pieces"}))
     if tier != "quick":
-        # > 26 pieces in one value (tuple chunking) and > 16 locales (nested EitherOf)
-        big = []
-        n = Namer("en.big", rng)
-        for q in range(40):
-            big.append(n.text())
-            big.append(V("v%d" % (q % 7)))
         many = ["en"] + ["l%c%c" % (chr(97 + q // 26), chr(97 + q % 26)) for q in range(19)]
-        files = {l: {"big": S(*big), "small": S("s " + l, V("x"))} for l in many}
-        cases.append(Case(Project("en", many, files), "c01_large/0", roles={"*": "large"}))
+        files = {l: {"big": S(*pieces(40, l + ".big")), "small": S("s " + l, V("x"))} for l in many}
+        cases.append(Case(Project("en", many, files), "c01_large/locales", roles={"*": "more_than_16_locales"}))
     return cases
 
 
@@ -389,6 +393,11 @@ def c05_cases(tier, seed):
             roles[(None, ("f%d" % k,))] = "plural_fk_literal_count:%s" % rule
             roles[(None, ("g%d" % k,))] = "plural_fk_renamed_count:%s" % rule
         cases.append(Case(Project(default, locales, files), "c05_plurals/%d" % pi, roles=roles))
+    # two locales of one language whose CLDR rules differ (pt: one <- i = 0..1, pt-PT: one <- i = 1 and v = 0)
+    files = {l: {"p": PLURAL("cardinal", {"one": S(l + " one ", V("count")), "other": S(l + " other ", V("count"))}),
+                 "o": PLURAL("ordinal", {"one": S(l + " 1st"), "two": S(l + " 2nd"), "few": S(l + " 3rd"), "other": S(l + " nth ", V("count"))})}
+             for l in ["pt", "pt-PT", "en", "en-GB"]}
+    cases.insert(0, Case(Project("pt", ["pt", "pt-PT", "en", "en-GB"], files), "c05_same_language/0", roles={"*": "plural_same_language"}))
     # inside subkeys and namespaces; plural that only exists in one locale (string elsewhere)
     files = {l: {"grp": SUB({"p": PLURAL("cardinal", {"one": S(l + " one"), "other": S(l + " other ", V("count"))}),
                               "q": S(l + " q")}),
